@@ -139,8 +139,9 @@ def main(tier):
             js.append({"program": p_, "families": ["task", "resource"], "family": "interaction:" + lab.split("/")[1]})
     if lvl == "deep":
         js = common.widen(js, by=(1, 2))
+    js += common.staged(js, stride=4 if tier == "quick" else 1, kinds=("solve", "init"))
     for j in js:
         # the busy bounds of every assignment are explored too: the interval each worker is held
         # must be the one the requirement implies (static, delayed, selected) or lie inside the task (dynamic)
         j["prim_opts"] = {"busy_prims": True}
-    return common.run_space_check("C02", tier, js, RULE, ASSUME, budget_s=110 if tier == "quick" else 1500)
+    return common.run_space_check("C02", tier, js, RULE, ASSUME, budget_s=480 if tier == "quick" else 3000)
